@@ -154,6 +154,12 @@ func (e *specEnv) objVal(o types.Object) (SVal, bool) {
 		case constant.Float:
 			return SVal{smtReal(x.Val()), "Real", x.Type()}, true
 		}
+	case *types.Func:
+		if sp := e.r.eng.SSAPkgs[x.Pkg().Path()]; sp != nil {
+			if f := sp.Func(x.Name()); f != nil {
+				return SVal{Term: e.r.fnTerm(f), Sort: "Int", Type: x.Type()}, true
+			}
+		}
 	case *types.Var:
 		if sp := e.r.eng.SSAPkgs[x.Pkg().Path()]; sp != nil {
 			if g, ok := sp.Members[x.Name()].(*ssa.Global); ok {
@@ -442,9 +448,9 @@ func (e *specEnv) bin(x *SExpr) SVal {
 		return SVal{Term: fmt.Sprintf("(%s %s %s)", op, a.Term, b.Term), Sort: "Bool"}
 	case "+":
 		if a.Sort == "String" {
-			return SVal{Term: fmt.Sprintf("(str.++ %s %s)", a.Term, b.Term), Sort: "String"}
+			return SVal{Term: fmt.Sprintf("(str.++ %s %s)", a.Term, b.Term), Sort: "String", Type: a.Type}
 		}
-		return SVal{Term: fmt.Sprintf("(+ %s %s)", a.Term, b.Term), Sort: a.Sort}
+		return SVal{Term: fmt.Sprintf("(+ %s %s)", a.Term, b.Term), Sort: a.Sort, Type: a.Type}
 	case "-", "*":
 		return SVal{Term: fmt.Sprintf("(%s %s %s)", op, a.Term, b.Term), Sort: a.Sort}
 	case "/":
@@ -490,7 +496,7 @@ func (e *specEnv) call(x *SExpr) SVal {
 		return a
 	case "is":
 		a, b := arg(0), arg(1)
-		return SVal{Term: fmt.Sprintf("(err_is %s %s)", a.Term, b.Term), Sort: "Bool"}
+		return SVal{Term: fmt.Sprintf("(and (not (= %s 0)) (err_is %s %s))", a.Term, a.Term, b.Term), Sort: "Bool"}
 	case "istype":
 		a := arg(0)
 		t := e.resolveType(x.Args[1].Val)
